@@ -159,195 +159,19 @@ func (d *differ) violate(sigPrefix, prog string, input any, ref, fo Obs, class s
 
 var fromjsonRe = regexp.MustCompile(`\bfromjson\b`)
 
-// viaToValue rewrites every use of fromjson so that its result is converted to
-// the JSON value it stands for (tovalue is fq's documented conversion of a decode
-// value). Used only to classify a difference, never as the judged program.
-func viaToValue(prog string) string {
-	// explicit options: a bare interpreter session has no option stack for tovalue's defaults
-	return fromjsonRe.ReplaceAllString(prog, `(fromjson|tovalue({bits_format:"string"}))`)
-}
-
-// fromjsonDecodeValue records the one known root cause that is classified by a
-// test rather than by a signature list: fq's fromjson returns a "decode value"
-// (doc/usage.md, "Types specific to fq") instead of a plain jq value, and decode
-// values deviate from plain values in a number of primitives (negative length,
-// indexing null, unsorted and unstable object iteration order, accepted as input
-// by fromjson itself, usable as object key, string key lookup on non-objects ...).
-// A difference belongs to this class iff it disappears completely when, in the
-// same program, fromjson's result is passed through tovalue (fq's documented
-// conversion of a decode value to its JSON value) - and only then. Which
-// primitives deviate, value by value, is C08's subject; here every composition
-// that merely inherits them is folded into one finding and counted.
-const sigFromjsonDV = "fromjson-result-is-a-decode-value"
-
-func (d *differ) fromjsonDecodeValue(prog string, input any, ref, fo Obs) {
-	r := d.r
-	r.Count("fromjson_decode_value_differences", 1)
-	n := r.Counter("fromjson_decode_value_differences")
-	if n == 1 {
-		r.Violate(sigFromjsonDV,
-			fmt.Sprintf("fromjson returns a decode value, not a plain jq value; e.g. program `%s` input %s: reference gojq -> %v ; fq -> %v ; the difference disappears with `fromjson | tovalue`", prog, canon(input), ref, fo),
-			Case{Section: d.section, Program: prog, Input: canon(input)})
-	}
-	if n%3000 == 1 {
-		r.Sample(map[string]any{"class": sigFromjsonDV, "program": prog, "input": canon(input), "reference": ref.String(), "fq": fo.String()})
-	}
-}
-
-// A variant is a rewritten form of a differing program used only to classify the
-// difference, never as the judged program:
-//
-//	msg: every `catch B` becomes `catch (MASK | B)` where MASK replaces a string
-//	     error value by a constant. Error messages are not part of the property
-//	     (only where a program fails), but `catch` hands the message text to the
-//	     program. If both engines agree on the masked program, the original
-//	     difference was message text only.
-//	dv:  every `fromjson` becomes `fromjson | tovalue`, see fromjsonDecodeValue.
-//	dv+msg: both.
-type variant struct {
-	j               int
-	kind            string
-	fqText, refText string
-	fq, ref         []Obs
-}
-
-func variantsOf(j int, prog string) []variant {
-	var vs []variant
-	add := func(kind, fqText, refText string) {
-		if _, err := gojq.Parse(fqText); err != nil {
-			return
-		}
-		if _, err := gojq.Parse(refText); err != nil {
-			return
-		}
-		vs = append(vs, variant{j: j, kind: kind, fqText: fqText, refText: refText})
-	}
-	masked, hasCatch := maskCatch(prog)
-	hasFJ := fromjsonRe.MatchString(prog)
-	if hasCatch {
-		add("msg", masked, masked)
-	}
-	if hasFJ {
-		add("dv", viaToValue(prog), prog)
-	}
-	if hasCatch && hasFJ {
-		add("dv+msg", viaToValue(masked), masked)
-	}
-	return vs
-}
-
-const catchMask = `if type == "string" then "<message>" else . end`
-
-// maskCatch rewrites every `catch TERM` into `catch (MASK | TERM)`. TERM is, in
-// everything this harness generates, a parenthesised expression or a bare
-// identifier/variable/`.`; the result is used only if it parses.
-func maskCatch(prog string) (string, bool) {
-	var b strings.Builder
-	found := false
-	i := 0
-	for i < len(prog) {
-		if prog[i] == '"' {
-			// copy string literal (with interpolations; parentheses inside are balanced)
-			j := i + 1
-			for j < len(prog) && prog[j] != '"' {
-				if prog[j] == '\\' {
-					j++
-				}
-				j++
-			}
-			j = min(j+1, len(prog))
-			b.WriteString(prog[i:j])
-			i = j
-			continue
-		}
-		if strings.HasPrefix(prog[i:], "catch ") && (i == 0 || !isIdentByte(prog[i-1])) {
-			j := i + len("catch ")
-			end := j
-			if j < len(prog) && prog[j] == '(' {
-				depth := 0
-				inStr := false
-				for end < len(prog) {
-					c := prog[end]
-					if inStr {
-						if c == '\\' {
-							end++
-						} else if c == '"' {
-							inStr = false
-						}
-					} else if c == '"' {
-						inStr = true
-					} else if c == '(' {
-						depth++
-					} else if c == ')' {
-						depth--
-						if depth == 0 {
-							end++
-							break
-						}
-					}
-					end++
-				}
-			} else {
-				for end < len(prog) && (isIdentByte(prog[end]) || prog[end] == '.' || prog[end] == '$') {
-					end++
-				}
-			}
-			if end > j {
-				found = true
-				b.WriteString("catch (" + catchMask + " | " + prog[j:end] + ")")
-				i = end
-				continue
-			}
-		}
-		b.WriteByte(prog[i])
-		i++
-	}
-	return b.String(), found
-}
-
-func isIdentByte(c byte) bool {
-	return c == '_' || c >= '0' && c <= '9' || c >= 'a' && c <= 'z' || c >= 'A' && c <= 'Z'
-}
-
-// observe evaluates prog unbatched n times in fq and returns the distinct
-// observations (fq is expected to be deterministic; where it is not, that is
-// itself reported).
-func (d *differ) observe(prog string, input any, n int, batched bool) []Obs {
-	var out []Obs
-	for i := 0; i < n; i++ {
-		var o Obs
-		if batched {
-			res, err := d.fq.runBatch([]string{prog}, []any{input})
-			if err != nil {
-				return out
-			}
-			o = res[0][0]
-		} else {
-			o, _ = d.fq.run(prog, input)
-		}
-		dup := false
-		for _, p := range out {
-			dup = dup || sameObs(p, o)
-		}
-		if !dup {
-			out = append(out, o)
-		}
-	}
-	return out
-}
-
-func containsObs(l []Obs, o Obs) bool {
-	for _, p := range l {
-		if sameObs(p, o) {
-			return true
-		}
-	}
-	return false
-}
-
 // report confirms a batched mismatch with unbatched evaluations and records it.
 func (d *differ) report(prog string, input any, ref Obs, fqBatched *Obs) {
-	seen := d.observe(prog, input, 3, false)
+	var seen []Obs
+	first, _ := d.fq.run(prog, input)
+	if fqBatched != nil && sameObs(first, *fqBatched) {
+		// two independent evaluations (batched, unbatched) agree with each other
+		seen = []Obs{first}
+	} else {
+		seen = d.observe(prog, input, 3, false)
+		if !containsObs(seen, first) {
+			seen = append(seen, first)
+		}
+	}
 	if len(seen) == 1 && sameObs(ref, seen[0]) && fqBatched != nil {
 		// unbatched fq agrees with the reference although the batch did not: either fq
 		// is not deterministic on this program or the batching wrapper changed it
@@ -374,7 +198,16 @@ func (d *differ) report(prog string, input any, ref Obs, fqBatched *Obs) {
 	if len(seen) == 0 || sameObs(ref, seen[0]) {
 		return
 	}
-	d.violate(d.section, prog, input, ref, seen[0], features(prog)+":in="+jqType(input))
+	fo := seen[0]
+	if fo.Panic && !ref.Panic {
+		d.goPanic(prog, input, ref, fo)
+		return
+	}
+	if invalidPathThroughSplit(prog, ref, fo) {
+		d.splitInPath(prog, input, ref, fo)
+		return
+	}
+	d.violate(d.section, prog, input, ref, fo, features(prog)+":in="+jqType(input))
 }
 
 // compareBatch runs progs x inputs in both engines (fq batched) and compares.
@@ -405,11 +238,7 @@ func (d *differ) compareBatch(progs []string, inputs []any, validate bool) {
 		for i, in := range inputs {
 			c.refs[i] = refRun(code, in)
 			if c.refs[i].Panic {
-				r.Count("reference_engine_go_panics", 1)
-				if r.Counter("reference_engine_go_panics") <= 2 {
-					r.Sample(map[string]any{"class": "the reference engine (gojq fork) itself panics", "program": p, "input": canon(in), "reference": c.refs[i].String()})
-					r.Logf("reference engine panics: program `%s` input %s: %v", p, canon(in), c.refs[i])
-				}
+				break
 			}
 			if len(c.refs[i].Outs) > 0 {
 				nontrivial = true
@@ -420,6 +249,20 @@ func (d *differ) compareBatch(progs []string, inputs []any, validate bool) {
 		}
 		if nontrivial {
 			r.Nontrivial(p)
+		}
+		if pi := firstPanic(c.refs); pi >= 0 {
+			// the reference engine itself crashes on this program: there is no
+			// reference behaviour to compare with. Recorded, fq is run once on the
+			// crashing input to see whether it shares the crash, nothing is judged.
+			r.Count("programs_without_verdict:reference_engine_crashes", 1)
+			if r.Counter("programs_without_verdict:reference_engine_crashes") <= 2 {
+				r.Sample(map[string]any{"class": "the reference engine (gojq fork) itself panics", "program": p, "input": canon(inputs[pi]), "reference": c.refs[pi].String()})
+				r.Logf("reference engine panics: program `%s` input %s: %v", p, canon(inputs[pi]), c.refs[pi])
+			}
+			if fo, _ := d.fq.run(p, inputs[pi]); fo.Panic {
+				r.Count("programs_without_verdict:reference_engine_crashes:fq_crashes_too", 1)
+			}
+			continue
 		}
 		ok = append(ok, c)
 	}
@@ -433,25 +276,13 @@ func (d *differ) compareBatch(progs []string, inputs []any, validate bool) {
 	r.Count("ms_reference", time.Since(t0).Milliseconds())
 	t1 := time.Now()
 	r.StepBegin(d.section+":batch", "fq evaluating a batch starting with "+texts[0], Case{Section: d.section, Program: texts[0], Input: "null"})
-	obs, err := d.fq.runBatch(texts, inputs)
+	obs, unb := d.fq.runBatchRobust(texts, inputs)
 	r.StepEnd()
 	r.Count("ms_fq_batches", time.Since(t1).Milliseconds())
-	batched := err == nil
-	if !batched {
-		// some program broke the whole batch (fq compile error, uncatchable error such
-		// as halt): evaluate each program on its own
-		r.Count("batch_fallbacks", 1)
-		if r.Counter("batch_fallbacks") <= 3 {
-			r.Logf("%s: batch starting with %s evaluated unbatched: %v", d.section, texts[0], err)
-		}
-		obs = make([][]Obs, len(inputs))
-		for i, in := range inputs {
-			obs[i] = make([]Obs, len(ok))
-			for j, c := range ok {
-				obs[i][j], _ = d.fq.run(c.text, in)
-			}
-		}
-		validate = false
+	if len(unb) > 0 {
+		// programs that broke their batch (a Go panic, an uncatchable error, a compile
+		// error in fq only) were isolated by bisection and evaluated on their own
+		r.Count("programs_evaluated_unbatched", int64(len(unb)))
 	}
 	// Second stage for the programs that differ: classify the difference with the
 	// two explicit, tested exception classes (see variantsOf). One more fq batch.
@@ -503,6 +334,10 @@ func (d *differ) compareBatch(progs []string, inputs []any, validate bool) {
 			if c.refs[i].Trunc || sameObs(c.refs[i], obs[i][j]) {
 				continue
 			}
+			if obs[i][j].Panic {
+				d.goPanic(c.text, in, c.refs[i], obs[i][j])
+				continue
+			}
 			explained := false
 			for k := range vars {
 				v := &vars[k]
@@ -512,23 +347,30 @@ func (d *differ) compareBatch(progs []string, inputs []any, validate bool) {
 				explained = true
 				if v.kind == "msg" {
 					r.Count("error_message_text_differs_only (messages are not compared)", 1)
-				} else {
+				}
+				if strings.Contains(v.kind, "dv") {
 					d.fromjsonDecodeValue(c.text, in, c.refs[i], obs[i][j])
+				}
+				if strings.Contains(v.kind, "split2") {
+					d.split2Order(c.text, in, c.refs[i], obs[i][j])
+				}
+				if strings.Contains(v.kind, "pathsplit") {
+					d.splitInPath(c.text, in, c.refs[i], obs[i][j])
 				}
 				break
 			}
 			if explained {
 				continue
 			}
-			if batched {
+			if unb[j] {
+				d.report(c.text, in, c.refs[i], nil)
+			} else {
 				o := obs[i][j]
 				d.report(c.text, in, c.refs[i], &o)
-			} else {
-				d.report(c.text, in, c.refs[i], nil)
 			}
 		}
 	}
-	if validate {
+	if validate && len(unb) == 0 {
 		// the batching trick itself: every program of this batch, unbatched, on two
 		// inputs that rotate with the program index
 		for j, c := range ok {
@@ -650,7 +492,28 @@ func replay(r *core.Run, raw json.RawMessage) bool {
 	ref := refRun(code, in)
 	fo, _ := fq.run(c.Program, in)
 	fmt.Printf("  reference gojq: %v\n  fq:             %v\n", ref, fo)
-	return !sameObs(ref, fo)
+	if sameObs(ref, fo) {
+		return false
+	}
+	// show how the difference classifies (see classify.go)
+	for _, v := range variantsOf(0, c.Program) {
+		vref := ref
+		if v.refText != c.Program {
+			if vc, err := refCompile(v.refText); err == nil {
+				vref = refRun(vc, in)
+			}
+		}
+		vfq, _ := fq.run(v.fqText, in)
+		if sameObs(vref, vfq) {
+			fmt.Printf("  classified as %q: the engines agree on the rewritten program\n    fq:        %s\n    reference: %s\n", v.kind, v.fqText, v.refText)
+			if v.kind == "msg" {
+				fmt.Println("  (error message text only: not a violation)")
+				return false
+			}
+			break
+		}
+	}
+	return true
 }
 
 // selfTest makes sure the harness' own pieces work before anything is judged: the
@@ -666,6 +529,16 @@ func selfTest(r *core.Run) {
 	chk(canon(1.0) == canon(1), "1.0 vs 1")
 	chk(canon(mustJSON(`{"b":1,"a":[1.5,"x"]}`)) == `{"a":[1.5,"x"],"b":1}`, "canon object")
 	chk(canon(mustJSON(`18446744073709551616`)) == "18446744073709551616", "2^64")
+	m, ok := maskCatch(`try (.a) catch (. | "x\(try . catch length)") , "catch me"`)
+	chk(ok && m == `try (.a) catch (`+catchMask+` | (. | "x\(try . catch (`+catchMask+` | length))")) , "catch me"`, "maskCatch: "+m)
+	sp, ok := reorderSplit2(`splits("a") , split(split(","; "g"); .a) , split(";") , "split(1;2)"`)
+	chk(ok && sp == `splits("a") , (( .a) as $__c07f | ((( "g") as $__c07f | (",") as $__c07r | split($__c07r; $__c07f))) as $__c07r | split($__c07r; $__c07f)) , split(";") , "split(1;2)"`, "reorderSplit2: "+sp)
+	ps, ok := nativeSplitInPath(`split(",") , path(try (split(",")) catch "split(") , ((split(.a; "g"))) |= (split(",")) , del(.a)`)
+	chk(ok && ps == `split(",") , path(try (_orig_split(",")) catch "split(") , ((_orig_split(.a; "g"))) |= (split(",")) , del(.a)`, "nativeSplitInPath: "+ps)
+	for _, t := range []string{m, sp, ps} {
+		_, err := gojq.Parse(t)
+		chk(err == nil, "rewritten program does not parse: "+t)
+	}
 	for _, a := range allAtoms() {
 		_, err := refCompile(a.text)
 		chk(err == nil, fmt.Sprintf("atom %q does not compile in the reference: %v", a.text, err))
